@@ -55,6 +55,7 @@ Definition pair_mem (p : N * N) (l : list (N * N)) : bool :=
           3 a task owned by another environment changed or left the roster
           4 KILL for a task owned by another environment
           5 transition command for a task not owned by the requesting environment
+          9 the core process died inside the request
           6 an owned task lost its lock (parent kept, agent / executor id gone) without a failure of its executor / agent
           7 roster inconsistent (id twice / owner is not the environment the task was launched for)
           8 another environment's listing entry changed *)
@@ -123,7 +124,9 @@ Definition mon04_step (ops : list op) (prev : obs) (o : op) (cur : obs) : list N
              | [] => 0
              | _ => match o with OFinish _ _ => 1 | _ => 2 end
              end in
-  [c7; c6; c3; c4; c5; c8; c12].
+  (* 9: the core process died inside the request (the harness reports status 99) *)
+  let c9 := if N.eqb (ob_rc cur) 99 then 9 else 0 in
+  [c9; c7; c6; c3; c4; c5; c8; c12].
 
 Fixpoint mon_walk (f : obs -> op -> obs -> list N) (prev : obs) (ops : list op) (l : list obs) : list N :=
   match ops, l with
